@@ -5,7 +5,6 @@ import os
 from experimaestro.utils import logger
 from .connectors import RedirectType, Redirect
 from .commandline import CommandLineJob, AbstractCommand, CommandContext
-from shlex import quote as shquote
 
 
 # TODO: should be reworked with the new way to build commands
@@ -82,7 +81,8 @@ class PythonScriptBuilder:
         )
 
         def relpath(path: Path):
-            return shquote(context.relpath(path))
+            # (a python string literal, whatever the characters of the path)
+            return repr(str(context.relpath(path)))
 
         # FIXME: big hack to generate the params.json file
         # which is all what we need for now, but this might not be true in the future
@@ -111,23 +111,23 @@ class PythonScriptBuilder:
 
             out.write("    lockfiles = [\n")
             for path in self.lockfiles:
-                out.write(f"       '''{relpath(path)}''',\n")
+                out.write(f"       {relpath(path)},\n")
             out.write("    ]\n")
 
             for name, value in job.environ.items():
                 if name == "PYTHONPATH":
                     # Handles properly python path
                     for path in value.split(":"):
-                        out.write(f"""    sys.path.insert(0, "{shquote(path)}")\n""")
+                        out.write(f"""    sys.path.insert(0, {path!r})\n""")
                 else:
-                    out.write(f"""    os.environ["{name}"] = "{shquote(value)}"\n""")
+                    out.write(f"""    os.environ[{name!r}] = {value!r}\n""")
             out.write("\n")
 
             for path in job.python_path:
-                out.write(f"""    sys.path.insert(0, "{shquote(str(path))}")\n""")
+                out.write(f"""    sys.path.insert(0, {str(path)!r})\n""")
 
             out.write(
-                f"""    TaskRunner("{shquote(connector.resolve(scriptpath))}","""
+                f"""    TaskRunner({str(connector.resolve(scriptpath))!r},"""
                 """ lockfiles).run()\n"""
             )
 
